@@ -7,6 +7,7 @@ import CompmechVerif.Props.C05
 #print axioms Compmech.EigPost.C05.lb_requests_in_arpack_range
 #print axioms Compmech.EigPost.C05.lb_repaired_instances_return
 #print axioms Compmech.EigPost.C05.multipliers_ascending_positive
+#print axioms Compmech.EigPost.C05.first_multiplier_is_critical
 #print axioms Compmech.EigPost.C05.cayley_transform
 #print axioms Compmech.EigPost.C05.cayley_selects_smallest_positive
 #print axioms Compmech.EigPost.C05.ascending_lowest_unique
